@@ -727,7 +727,7 @@ func c17Scenarios(tier string) []Scenario {
 func init() {
 	register(&Property{ID: "C17", Level: "model_checking",
 		Technique: "explicit-state breadth-first search over mutation sequences with a POSIX twin as reference model; every transition executed on the real Ufs (fresh trees, replay of the sequence) and the trees compared",
-		Rule:      "alphabet of ~85 (.u ~100) mutations over the namespace {a, b, d/, d/c, d/dd/, l->a, ld->d/dd}: Tcreate of files (4 perm/mode pairs incl. OTRUNC) on free and occupied names in two directories and in 'ld/..' (through a symbolic link to a directory and back up), directories, symlinks with existing and dangling targets, hard links, Twrite at offsets 0/mid/end/beyond, Topen with OTRUNC, Tremove of file / empty and non-empty directory / symlink / missing, Twstat rename to free/occupied/same names, lengths 0/shorter/equal/longer, modes 0/0400/0777 and the current ones (0644/0755; start tree 1 has set-user-id, set-group-id and sticky bits on them), mtime, and four multi-field wstats; BFS to depth 2 (thorough 3, three start trees) with states deduplicated on a canonical snapshot (names, kinds, permission bits, contents, link targets, hard-link groups, explicitly set mtimes); the same operation is applied with package os to a twin tree. states = distinct tree snapshots, transitions = sequences executed ; after every refused create the directory fid is stat-ed again (it stays where it was)",
+		Rule:      "alphabet of ~85 (.u ~100) mutations over the namespace {a, b, d/, d/c, d/dd/, l->a, ld->d/dd}: Tcreate of files (4 perm/mode pairs incl. OTRUNC) on free and occupied names in two directories and in 'ld/..' (through a symbolic link to a directory and back up), directories, symlinks with existing and dangling targets, hard links, Twrite at offsets 0/mid/end/beyond, Topen with OTRUNC, Tremove of file / empty and non-empty directory / symlink / missing, Twstat rename to free/occupied/same names, lengths 0/shorter/equal/longer, modes 0/0400/0777 and the current ones (0644/0755; start tree 1 has set-user-id, set-group-id and sticky bits on them), mtime, and four multi-field wstats; BFS to depth 2 (thorough 3, three start trees) with states deduplicated on a canonical snapshot (names, kinds, permission bits, contents, link targets, hard-link groups, explicitly set mtimes); the same operation is applied with package os to a twin tree. states = distinct tree snapshots, transitions = sequences executed ; after every refused create the directory fid is stat-ed again (it stays where it was) ; creates of special kinds (pipe, socket, device, mixed kind bits) under free and occupied names: refused ones leave the tree unchanged",
 		Assumptions: []string{"the host file system and package os are the reference", "creating an existing name may be refused or treated like O_CREAT without O_EXCL (either is accepted if the tree matches)", "start tree 3 is served (and its twin changed) with the effective ids of an ordinary user, so that the host refuses things; the other trees run as the sandbox user"},
 		Scenarios:   c17Scenarios, QuickS: 110, ThoroughS: 1500})
 }
